@@ -157,6 +157,10 @@ def run(ctx: Ctx) -> None:
             # reference taus from a fresh rule object
             fresh = transformer_residual_scaling_rule(float(r), float(rho))
             want = [fresh(i, 2 * L) for i in range(2 * L)]
+            if len(stack) != L or any(not hasattr(layer, "mhsa_tau") or not hasattr(layer, "mlp_tau") for layer in stack):
+                ctx.violation("C07:structure", "the stack does not consist of `layers` transformer layers, each with an attention "
+                              "and an MLP residual weight", case, {"len": len(stack), "children": [type(m_).__name__ for m_ in stack]})
+                continue
             attrs = [t for layer in stack for t in (layer.mhsa_tau, layer.mlp_tau)]
             # record the taus actually used by the forward pass, in order
             used: List[Any] = []
